@@ -9,13 +9,21 @@
    kill of any operation - also of the executing one -, a watchdog pass, a
    maintenance pass (priority inheritance + watchdog), shutdown, time passing;
    scripted work function incl. nested controller calls (also run_maintenance,
-   controller.advance of other operations, pop_next_waiter), work raising, validation absent/true/false/raising), the request list
+   controller.advance of other operations, pop_next_waiter) and NESTED
+   execute_operation calls with scripts of their own, to any depth ([WExec]),
+   work raising, validation absent/true/false/raising), the request list
    [reqs] (repeats, unregistered ids, resources held by others), priorities and
    the watchdog configuration [w] are universally quantified everywhere.
    The operation id [o] of execute_operation is any id that is not live: a
    fresh one or the id of an operation that has ended (a retry).
    [WFbut o s] (Proofs.v): [s] is well-formed once [o] is counted as live - the
-   operation being executed may have been delisted by a callback and hold locks. *)
+   operation being executed may have been delisted by a callback and hold locks.
+   [exec_in true fl w sc encl s o p reqs] is execute_operation(o, ...) called while
+   the execute_operation calls of the operations [encl] are in progress (from inside
+   the work function of the innermost); [exec_op fl w s o p reqs sc] is the case
+   [encl = []].  [WFbuts encl s]: well-formed once the enclosing operations - each
+   possibly delisted and still holding locks - are counted as live
+   ([WFbuts [] s <-> WF s], Proofs.wfbuts_nil). *)
 From Coq Require Import ZArith List Bool.
 From Verif Require Import C14.Model C14.Proofs.
 Import ListNotations.
@@ -54,6 +62,21 @@ Theorem c14_no_leak :
 Proof. exact no_leak_proof. Qed.
 Print Assumptions c14_no_leak.
 
+(* The same for an execute_operation called from inside the work function of
+   another one (at any nesting depth, the enclosing operations in any condition):
+   when the nested call returns the nested operation owns nothing and is not
+   active, and the state is again well-formed up to the enclosing operations -
+   so the enclosing call, whose work function may go on to raise / fail validation
+   / fail a checkpoint, still ends as [c14_no_leak] says (its script [sc] ranges
+   over work functions that make nested calls). *)
+Theorem c14_nested_no_leak :
+  forall w encl s o p reqs sc,
+    WFbuts encl s -> ~ In o (active s) -> ~ In o encl ->
+    let s' := fst (exec_in true current w sc encl s o p reqs) in
+    (forall r, owner s' r <> Some o) /\ ~ In o (active s') /\ WFbuts encl s'.
+Proof. exact nested_no_leak_proof. Qed.
+Print Assumptions c14_nested_no_leak.
+
 (* Resources the operation never obtained (everything but the requests before
    the first BLOCKED / unknown one) keep owner, owner priority and hold count
    — for callbacks (work function, checkpoint conditions) that do not themselves
@@ -73,12 +96,24 @@ Theorem c14_unrequested_untouched :
 Proof. exact unrequested_untouched_proof. Qed.
 Print Assumptions c14_unrequested_untouched.
 
+(* ... also for a nested call: it leaves alone every lock it did not obtain - in
+   particular the locks of the operations whose work functions enclose it *)
+Theorem c14_nested_unobtained_untouched :
+  forall w encl s o p reqs sc r,
+    WFbuts encl s -> ~ In o (active s) -> ~ In o encl -> no_calls sc ->
+    ~ In r (obtained_by w s o p reqs sc) ->
+    lock_core (fst (exec_in true current w sc encl s o p reqs)) r = lock_core s r.
+Proof. exact nested_unobtained_untouched_proof. Qed.
+Print Assumptions c14_nested_unobtained_untouched.
+
 (* work_fn is invoked at most once, and in the state [sw] in which it is
    invoked the operation is active and owns every requested resource — whatever
-   the checkpoint callbacks did before (any state, any flags) *)
+   the checkpoint callbacks did before (any state, any flags; top-level call or
+   nested in the calls of [encl]; nested calls keep their own log, so the work
+   function of a nested operation is a separate instance of this statement) *)
 Theorem c14_work_once_holding_all :
-  forall fl w s o p reqs sc,
-    let res := snd (exec_op fl w s o p reqs sc) in
+  forall fl w encl s o p reqs sc,
+    let res := snd (exec_in true fl w sc encl s o p reqs) in
     (length (filter is_work (r_log res)) <= 1)%nat /\
     (forall sw, In (EvWork sw) (r_log res) ->
        In o (active sw) /\ forall r, In r reqs -> owner sw r = Some o).
@@ -87,8 +122,8 @@ Print Assumptions c14_work_once_holding_all.
 
 (* a validation event is preceded by the invocation and the normal return of work_fn *)
 Theorem c14_validate_after_work :
-  forall fl w s o p reqs sc l1 e l2,
-    r_log (snd (exec_op fl w s o p reqs sc)) = l1 ++ e :: l2 -> is_validate e = true ->
+  forall fl w encl s o p reqs sc l1 e l2,
+    r_log (snd (exec_in true fl w sc encl s o p reqs)) = l1 ++ e :: l2 -> is_validate e = true ->
     In EvWorkRet l1 /\ exists sw, In (EvWork sw) l1.
 Proof. exact validate_after_work_proof. Qed.
 Print Assumptions c14_validate_after_work.
@@ -96,8 +131,8 @@ Print Assumptions c14_validate_after_work.
 (* success is reported exactly when work_fn returned, validation is absent or
    returned true, and the last checkpoint passed *)
 Theorem c14_success_iff_both :
-  forall fl w s o p reqs sc,
-    let res := snd (exec_op fl w s o p reqs sc) in
+  forall fl w encl s o p reqs sc,
+    let res := snd (exec_in true fl w sc encl s o p reqs) in
     r_success res = true <->
     (In EvWorkRet (r_log res) /\ validation_ok sc = true /\ In (EvCp 3 true) (r_log res)).
 Proof. exact success_iff_both_proof. Qed.
@@ -194,8 +229,8 @@ Print Assumptions c14_exec_end_changes_only_own_locks.
    runs its work: work_fn is invoked only while the operation is still listed as
    active, and success is reported only if work_fn was invoked (fix 531c938). *)
 Theorem c14_terminated_never_works :
-  forall fl w s o p reqs sc,
-    let res := snd (exec_op fl w s o p reqs sc) in
+  forall fl w encl s o p reqs sc,
+    let res := snd (exec_in true fl w sc encl s o p reqs) in
     (forall sw, In (EvWork sw) (r_log res) -> In o (active sw)) /\
     (r_success res = true -> exists sw, In (EvWork sw) (r_log res)).
 Proof. exact terminated_before_work_proof. Qed.
